@@ -30,6 +30,7 @@ RULE = (
     "or one location written in two spellings; distinct by (program, layout, input)."
 )
 ASSUMPTIONS = [
+    "every base slot has one type, as in compiler output: the base slot under a mapping, under a dynamic array and a scalar slot are never the same number within one program (the solidity layout files locations by (slot, keys) and does not model a slot that is both)",
     "solidity layout: a symbolic *base* slot is documented unsupported (stuck path) - counted, not compared",
     "array indices / struct offsets added to a hash are < 2^64 (documented: hash values are assumed <= 2^256-2^64 so that reasonable offsets do not wrap)",
     "a *concrete* offset added to a concrete hash is < 2^16 (OffsetMap(offset_bits=16): 'keys related by small offsets'); symbolic indices are free up to 2^64",
@@ -125,6 +126,50 @@ def fill_st():
         st.integers(0, gen.NW - 1).map(lambda i: ["op2", "AND", ["cd", i], ["c", (1 << 17) - 1]]),
     )
     return st.lists(one, min_size=4, max_size=4)
+
+
+def _has_ctor(e):
+    return isinstance(e, list) and (e[0] in ("mapkeyx", "mapkeyw", "arrx") or any(_has_ctor(x) for x in e[1:] if isinstance(x, list)))
+
+
+def _shift(e, d):
+    if e[0] == "c":
+        return ["c", e[1] + d]
+    if e[0] == "op2":
+        return ["op2", e[1], _shift(e[2], d), e[3]] if e[2][0] in ("c", "op2") else ["op2", e[1], e[2], _shift(e[3], d)]
+    return e
+
+
+def rebase_by_type(t):
+    """A Solidity contract gives every base slot one type.  Templates are built over base slots 0..4;
+    the slot under a mapping is moved to 8.., the slot under a dynamic array to 16.., so that the
+    locations of one program never use the same base slot as a mapping *and* as an array (or as a
+    scalar), a combination no compiler output contains and the solidity layout does not model."""
+    def go(e):
+        # -> (new expression, True if e is still the bare scalar base)
+        k = e[0]
+        if k == "c":
+            return e, True
+        if k in ("mapkeyx", "mapkeyw"):
+            b, bare = go(e[2])
+            if bare:
+                b = _shift(b, 8)
+            return [k, e[1], b] + e[3:], False
+        if k == "arrx":
+            b, bare = go(e[1])
+            if bare:
+                b = _shift(b, 16)
+            return ["arrx", b], False
+        if k == "op2":
+            x, y = e[2], e[3]
+            if _has_ctor(x):
+                return ["op2", e[1], go(x)[0], y], False
+            if _has_ctor(y):
+                return ["op2", e[1], x, go(y)[0]], False
+            return e, all(z[0] in ("c", "op2") for z in (x, y))  # scalar base + constant offset
+        return e, False
+
+    return go(t)[0]
 
 
 def instantiate(t, fill):
@@ -244,7 +289,7 @@ def program_st():
     op = st.tuples(st.sampled_from(["store", "store", "load"]), st.integers(0, 7), st.integers(0, 2), val_st())
     # pool of locations = every template instantiated with every filler: siblings that coincide
     # for some valuations (same template, concrete vs symbolic key/index) are the interesting pairs
-    pool = st.builds(lambda ts, fs: [instantiate(t, f) for t in ts for f in fs], st.lists(loc_st(), min_size=1, max_size=2), st.lists(fill_st(), min_size=2, max_size=3))
+    pool = st.builds(lambda ts, fs: [instantiate(rebase_by_type(t), f) for t in ts for f in fs], st.lists(loc_st(), min_size=1, max_size=2), st.lists(fill_st(), min_size=2, max_size=3))
     return st.builds(mk, pool, st.lists(op, min_size=2, max_size=7), st.booleans(), st.sampled_from(["solidity", "solidity", "generic"]), st.integers(0, 1 << 30))
 
 
@@ -391,7 +436,7 @@ def pair_case(rng):
     a, b = rng.choice(names), rng.choice(names)
     pa = [rng.randrange(0, 6) for _ in range(3)]
     pb = [rng.choice(pa + [rng.randrange(0, 6)]) for _ in range(3)]
-    la, lb = SHAPES[a](pa), SHAPES[b](pb)
+    la, lb = rebase_by_type(SHAPES[a](pa)), rebase_by_type(SHAPES[b](pb))
     ops = [["store", la, ["c", 0xA1]], ["store", lb, ["c", 0xB2]], ["load", la, ["c", 0]], ["load", lb, ["c", 0]]]
     return {"ops": ops, "transient": rng.random() < 0.3, "layout": rng.choice(["solidity", "generic", "generic"]), "seed": rng.randrange(1 << 30), "pair": [a, b]}
 
